@@ -12,6 +12,37 @@ ROOT = os.path.dirname(os.path.dirname(os.path.abspath(__file__)))
 
 # id -> (category, technique, level text, level note, design ref)
 CHECKS = {
+    "C01": (
+        "exploration",
+        "Hypothesis abstract-template generation + independent reference "
+        "interpreter + metamorphic attribute permutation",
+        "Generated abstract templates (random subsets of the TAL statements "
+        "on nested elements, every value class bound to the variables) are "
+        "serialized to source, rendered by Chameleon and by an independent "
+        "reference interpreter that never sees the source text; rendered "
+        "text / exception class must agree, and re-writing the statement "
+        "attributes of every element in other orders must not change the "
+        "result.",
+        "Trusts the reference interpreter in vlib/tmodel.py (calibrated "
+        "against docs/reference.rst; characterisation-only parts are marked "
+        "(char.)); accepts both the implementation's and the documented "
+        "order inside the guard group.",
+        "DESIGN.md 3/C01"),
+    "C04": (
+        "exploration",
+        "Hypothesis expression-tree generation + reference evaluation on the "
+        "tree + ordered call-log comparison",
+        "TALES expressions are generated as trees (pipes of 1..4 "
+        "alternatives that succeed or raise each caught / not-caught class, "
+        "prefix nestings, string: bodies, lambdas, comprehensions, f-strings, "
+        "attribute->item fallback, names shadowing builtins) at every "
+        "statement and interpolation site; value/exception and the ordered "
+        "log of evaluated alternatives are compared with a reference "
+        "evaluation on the tree, so double evaluation, evaluation of "
+        "unrendered parts and wrong fallback are all observable.",
+        "Trusts vlib/exprs.py; logs compared modulo statement order inside "
+        "the guard group / late group of one element activation.",
+        "DESIGN.md 3/C04"),
     "C03": (
         "exploration",
         "Hypothesis grammar-based generation + round-trip/identity oracle; "
